@@ -691,29 +691,37 @@ def read_zlib_chunks_at(
     pos = offset
 
     with memoryview(contents) as view:
-        while True:
-            add = view[pos : pos + buffer_size]
-            if not add:
-                raise zlib.error("EOF before end of zlib stream")
-            pos += len(add)
-            # +1 so overrun surfaces as unconsumed_tail rather than being truncated.
-            remaining = max_decomp - decomp_len + 1
-            decomp = decomp_obj.decompress(add, remaining)
-            if decomp_obj.unconsumed_tail:
-                raise zlib.error("decompressed data exceeds expected size")
-            decomp_len += len(decomp)
-            decomp_chunks.append(decomp)
-            unused = decomp_obj.unused_data
-            if unused:
-                left = len(unused)
-                pos -= left
-                add = add[:-left]
-            if crc32 is not None:
-                crc32 = binascii.crc32(add, crc32)
-            if include_comp:
-                comp_chunks.append(bytes(add))
-            if unused:
-                break
+        add = None
+        try:
+            while True:
+                add = view[pos : pos + buffer_size]
+                if not add:
+                    raise zlib.error("EOF before end of zlib stream")
+                pos += len(add)
+                # +1 so overrun surfaces as unconsumed_tail rather than being truncated.
+                remaining = max_decomp - decomp_len + 1
+                decomp = decomp_obj.decompress(add, remaining)
+                if decomp_obj.unconsumed_tail:
+                    raise zlib.error("decompressed data exceeds expected size")
+                decomp_len += len(decomp)
+                decomp_chunks.append(decomp)
+                unused = decomp_obj.unused_data
+                if unused:
+                    left = len(unused)
+                    pos -= left
+                    add = add[:-left]
+                if crc32 is not None:
+                    crc32 = binascii.crc32(add, crc32)
+                if include_comp:
+                    comp_chunks.append(bytes(add))
+                if unused:
+                    break
+        finally:
+            # On error the traceback keeps this frame, and with it the slice,
+            # alive; an unreleased slice keeps the mapping exported, so that
+            # closing the pack fails with BufferError.
+            if add is not None:
+                add.release()
     if crc32 is not None:
         crc32 &= 0xFFFFFFFF
 
